@@ -86,7 +86,7 @@ CLAIMS['C12'] = {
              'never panics, and a success returns such a block of the searched tree, inside the managed range, marking exactly it and '
              'preserving the invariant. Built from proved specifications of toggle (all orders, with roll-back), set_first_zeros '
              '(row search via the C23 theorem; chunk search), compare_exchange_all, put_small, partial_put_huge.'),
-    'note': TB,
+    'note': TB + ' Depends on the C23 theorem, hence also on the bv_decide axioms LLFree.FzaBv.*._native.bv_decide.ax_*.',
     'technique': 'Lean 4 refinement proof of the lower allocator (sequential semantics, invariant + per-function specifications by induction over the loops) + differential runs on crafted tree patterns',
 }
 
